@@ -152,6 +152,11 @@ def check_all(trace, props=("C07", "C08", "C09", "C11", "C12", "C13", "C17")):
                     fails["C09"].append({"leg": n, "msg": "tagger %s demands %d handlers but owns %d"
                                          % (meta["taggers"][ti]["tag"], len(fresh), meta["taggers"][ti]["n_handlers"])})
                 if base in IDENTITY_TAGGERS:
+                    if len(set(canon_ids(x) for x in fresh)) != len(fresh):
+                        dup = sorted(canon_ids(x) for x in fresh)
+                        dup = [x for i, x in enumerate(dup) if i and dup[i - 1] == x]
+                        fails["C09"].append({"leg": n, "msg": "tagger %s generates a factor twice: %r"
+                                             % (meta["taggers"][ti]["tag"], dup[:3])})
                     a = sorted(canon_ids(x) for x in fresh)
                     b = sorted(canon_ids(x) for x in pend)
                     if a != b:
